@@ -3,27 +3,27 @@ From Aplang Require Import Base FloatX.
 Open Scope N_scope.
 
 Inductive tk :=
-| SoftSemi
-| LeftParen | RightParen | LeftBracket | RightBracket | LeftBrace | RightBrace
-| Comma | Dot | Minus | Plus | Slash | Star
-| Arrow | EqualEqual | BangEqual | Greater | GreaterEqual | Less | LessEqual
-| Identifier | Number | StringLiteral
-| Mod | If | Else | Repeat | Times | Until | For | Each | Continue | Break | In
-| Procedure | Return | Not | And | Or
-| True | False | Null
-| Import | Export | From
-| Eof.
+| TSoftSemi
+| TLeftParen | TRightParen | TLeftBracket | TRightBracket | TLeftBrace | TRightBrace
+| TComma | TDot | TMinus | TPlus | TSlash | TStar
+| TArrow | TEqualEqual | TBangEqual | TGreater | TGreaterEqual | TLess | TLessEqual
+| TIdentifier | TNumber | TStringLiteral
+| TMod | TIf | TElse | TRepeat | TTimes | TUntil | TFor | TEach | TContinue | TBreak | TIn
+| TProcedure | TReturn | TNot | TAnd | TOr
+| TTrue | TFalse | TNull
+| TImport | TExport | TFrom
+| TEof.
 
 Definition tk_num (k : tk) : N :=
   match k with
-  | SoftSemi => 0 | LeftParen => 1 | RightParen => 2 | LeftBracket => 3 | RightBracket => 4
-  | LeftBrace => 5 | RightBrace => 6 | Comma => 7 | Dot => 8 | Minus => 9 | Plus => 10
-  | Slash => 11 | Star => 12 | Arrow => 13 | EqualEqual => 14 | BangEqual => 15 | Greater => 16
-  | GreaterEqual => 17 | Less => 18 | LessEqual => 19 | Identifier => 20 | Number => 21
-  | StringLiteral => 22 | Mod => 23 | If => 24 | Else => 25 | Repeat => 26 | Times => 27
-  | Until => 28 | For => 29 | Each => 30 | Continue => 31 | Break => 32 | In => 33
-  | Procedure => 34 | Return => 35 | Not => 36 | And => 37 | Or => 38 | True => 39 | False => 40
-  | Null => 41 | Import => 42 | Export => 43 | From => 44 | Eof => 45
+  | TSoftSemi => 0 | TLeftParen => 1 | TRightParen => 2 | TLeftBracket => 3 | TRightBracket => 4
+  | TLeftBrace => 5 | TRightBrace => 6 | TComma => 7 | TDot => 8 | TMinus => 9 | TPlus => 10
+  | TSlash => 11 | TStar => 12 | TArrow => 13 | TEqualEqual => 14 | TBangEqual => 15 | TGreater => 16
+  | TGreaterEqual => 17 | TLess => 18 | TLessEqual => 19 | TIdentifier => 20 | TNumber => 21
+  | TStringLiteral => 22 | TMod => 23 | TIf => 24 | TElse => 25 | TRepeat => 26 | TTimes => 27
+  | TUntil => 28 | TFor => 29 | TEach => 30 | TContinue => 31 | TBreak => 32 | TIn => 33
+  | TProcedure => 34 | TReturn => 35 | TNot => 36 | TAnd => 37 | TOr => 38 | TTrue => 39 | TFalse => 40
+  | TNull => 41 | TImport => 42 | TExport => 43 | TFrom => 44 | TEof => 45
   end.
 
 Definition tk_eqb (a b : tk) : bool := tk_num a =? tk_num b.
@@ -40,17 +40,17 @@ Definition tk_in (k : tk) (l : list tk) : bool := existsb (tk_eqb k) l.
 (** the Debug name of the Rust variant (what the harness prints) *)
 Definition tk_name (k : tk) : string :=
   match k with
-  | SoftSemi => "SoftSemi" | LeftParen => "LeftParen" | RightParen => "RightParen"
-  | LeftBracket => "LeftBracket" | RightBracket => "RightBracket" | LeftBrace => "LeftBrace"
-  | RightBrace => "RightBrace" | Comma => "Comma" | Dot => "Dot" | Minus => "Minus" | Plus => "Plus"
-  | Slash => "Slash" | Star => "Star" | Arrow => "Arrow" | EqualEqual => "EqualEqual"
-  | BangEqual => "BangEqual" | Greater => "Greater" | GreaterEqual => "GreaterEqual" | Less => "Less"
-  | LessEqual => "LessEqual" | Identifier => "Identifier" | Number => "Number"
-  | StringLiteral => "StringLiteral" | Mod => "Mod" | If => "If" | Else => "Else" | Repeat => "Repeat"
-  | Times => "Times" | Until => "Until" | For => "For" | Each => "Each" | Continue => "Continue"
-  | Break => "Break" | In => "In" | Procedure => "Procedure" | Return => "Return" | Not => "Not"
-  | And => "And" | Or => "Or" | True => "True" | False => "False" | Null => "Null"
-  | Import => "Import" | Export => "Export" | From => "From" | Eof => "Eof"
+  | TSoftSemi => "SoftSemi" | TLeftParen => "LeftParen" | TRightParen => "RightParen"
+  | TLeftBracket => "LeftBracket" | TRightBracket => "RightBracket" | TLeftBrace => "LeftBrace"
+  | TRightBrace => "RightBrace" | TComma => "Comma" | TDot => "Dot" | TMinus => "Minus" | TPlus => "Plus"
+  | TSlash => "Slash" | TStar => "Star" | TArrow => "Arrow" | TEqualEqual => "EqualEqual"
+  | TBangEqual => "BangEqual" | TGreater => "Greater" | TGreaterEqual => "GreaterEqual" | TLess => "Less"
+  | TLessEqual => "LessEqual" | TIdentifier => "Identifier" | TNumber => "Number"
+  | TStringLiteral => "StringLiteral" | TMod => "Mod" | TIf => "If" | TElse => "Else" | TRepeat => "Repeat"
+  | TTimes => "Times" | TUntil => "Until" | TFor => "For" | TEach => "Each" | TContinue => "Continue"
+  | TBreak => "Break" | TIn => "In" | TProcedure => "Procedure" | TReturn => "Return" | TNot => "Not"
+  | TAnd => "And" | TOr => "Or" | TTrue => "True" | TFalse => "False" | TNull => "Null"
+  | TImport => "Import" | TExport => "Export" | TFrom => "From" | TEof => "Eof"
   end%string.
 
 Inductive literal := LNone | LNum (f : float) | LStr (s : text).
